@@ -3,6 +3,7 @@ package interp
 // Per-path state: solver session, decision trace, nondet inputs, obligations.
 
 import (
+	"sort"
 	"bufio"
 	"fmt"
 	"io"
@@ -625,7 +626,7 @@ func (ps *PathState) assert(c value, label string) {
 	if ps.Twin {
 		c = false
 	}
-	tag := strings.Join(ps.Tags, ",")
+	tag := ps.tagString()
 	switch x := c.(type) {
 	case bool:
 		if x {
@@ -792,4 +793,10 @@ func parseFixed(k skind, v string) value {
 		u, _ := strconv.ParseUint(v, 10, 64)
 		return concreteOf(k, u)
 	}
+}
+
+func (ps *PathState) tagString() string {
+	t := append([]string(nil), ps.Tags...)
+	sort.Strings(t)
+	return strings.Join(t, ",")
 }
